@@ -233,7 +233,7 @@ func c13Gen(t *rapid.T) c13Case {
 	anchors := []uint32{
 		rapid.SampledFrom([]uint32{0x000100, 0x7E0000, 0x00FFF0, 0x800000}).Draw(t, "anchor0"),
 		rapid.Uint32Range(0x10, 0xFFFFE).Draw(t, "anchor1") << 4,
-		0xFFFF00,
+		0xFFFF80, // blocks up to the very top of the address space
 	}
 	cur := 0
 	blk := func(label string) uint32 { // an aligned address near the current anchor
@@ -273,7 +273,12 @@ func c13Gen(t *rapid.T) c13Case {
 				s, e = e, s
 			}
 			e += 15
-			if rapid.Bool().Draw(t, "mis-start") {
+			if k := rapid.IntRange(0, 2).Draw(t, "mis-both"); k == 0 && e+16 < 0xFFFFFF {
+				// both ends shifted by the same amount: the length is still a multiple of 16
+				sh := uint32(rapid.IntRange(1, 15).Draw(t, "mis"))
+				s += sh
+				e += sh
+			} else if rapid.Bool().Draw(t, "mis-start") {
 				s += uint32(rapid.IntRange(1, 15).Draw(t, "mis"))
 				if s > e {
 					e = s | 15
